@@ -805,6 +805,23 @@ class Inliner:
                     if j is not None:
                         count[0] += 1
                         return at(j, n)
+                if any(isinstance(a, ast.Starred) and isinstance(a.value, (ast.List, ast.Tuple)) and not any(isinstance(x, ast.Starred) for x in a.value.elts) for a in n.args):
+                    new_args = []
+                    for a in n.args:
+                        if isinstance(a, ast.Starred) and isinstance(a.value, (ast.List, ast.Tuple)) and not any(isinstance(x, ast.Starred) for x in a.value.elts):
+                            new_args += a.value.elts        # f(*[a, b]) == f(a, b)
+                        else:
+                            new_args.append(a)
+                    n.args = new_args
+                    count[0] += 1
+                if isinstance(f, ast.Attribute) and f.attr == "issuperset" and len(n.args) == 1 and not n.keywords and isinstance(f.value, ast.Call) and isinstance(f.value.func, ast.Name) \
+                        and f.value.func.id in ("frozenset", "set") and len(f.value.args) == 1 and isinstance(f.value.args[0], ast.Constant) and isinstance(f.value.args[0].value, str) \
+                        and sc.resolve(f.value.func) == f"builtins.{f.value.func.id}":
+                    # frozenset("0123..").issuperset(s)  ==  all(c in "0123.." for c in s)   (s a string: its elements are its characters)
+                    count[0] += 1
+                    gen = ast.GeneratorExp(elt=ast.Compare(left=ast.Name(id="c__chr", ctx=ast.Load()), ops=[ast.In()], comparators=[f.value.args[0]]),
+                                           generators=[ast.comprehension(target=ast.Name(id="c__chr", ctx=ast.Store()), iter=n.args[0], ifs=[], is_async=0)])
+                    return at(ast.Call(func=ast.Name(id="all", ctx=ast.Load()), args=[gen], keywords=[]), n)
                 if isinstance(f, ast.Attribute) and f.attr in ("match", "fullmatch", "search", "split", "findall", "finditer", "sub", "subn") and isinstance(f.value, ast.Call) \
                         and sc.resolve(f.value.func) == "re.compile" and len(f.value.args) == 1 and not f.value.keywords and not n.keywords \
                         and isinstance(sc.resolve_name("re"), str) and sc.resolve_name("re") == "re":
@@ -1304,6 +1321,39 @@ def inline_explaining_variables(fn: ast.AST) -> int:
     return count[0]
 
 
+def inline_callable_aliases(fn: ast.AST) -> int:
+    """`escape = html.escape` / `append = parts.append` followed by `escape(x)` / `append(y)`: the alias is written out at its
+    call sites (the local is bound once, only ever called, and what it abbreviates cannot be rebound in between)."""
+    count = [0]
+    names = [n for n in ast.walk(fn) if isinstance(n, ast.Name)]
+    params = {a.arg for a in fn.args.args + fn.args.kwonlyargs + fn.args.posonlyargs}
+
+    def dotted(e):
+        while isinstance(e, ast.Attribute):
+            e = e.value
+        return e.id if isinstance(e, ast.Name) else None
+    aliases = {}
+    for st in ast.walk(fn):
+        if isinstance(st, ast.Assign) and len(st.targets) == 1 and isinstance(st.targets[0], ast.Name) and isinstance(st.value, ast.Attribute) and dotted(st.value) is not None:
+            name = st.targets[0].id
+            base = dotted(st.value)
+            stores = sum(1 for n in names if n.id == name and isinstance(n.ctx, (ast.Store, ast.Del)))
+            base_stores = sum(1 for n in names if n.id == base and isinstance(n.ctx, (ast.Store, ast.Del)))
+            loads = [n for n in names if n.id == name and isinstance(n.ctx, ast.Load)]
+            called = [c for c in ast.walk(fn) if isinstance(c, ast.Call) and isinstance(c.func, ast.Name) and c.func.id == name]
+            if stores == 1 and name not in params and base_stores <= 1 and loads and len(called) == len(loads):
+                aliases[name] = st.value
+    if not aliases:
+        return 0
+    for c in ast.walk(fn):
+        if isinstance(c, ast.Call) and isinstance(c.func, ast.Name) and c.func.id in aliases:
+            c.func = ast.copy_location(copy.deepcopy(aliases[c.func.id]), c.func)
+            count[0] += 1
+    if count[0]:
+        ast.fix_missing_locations(fn)
+    return count[0]
+
+
 def split_assignments(fn: ast.AST) -> int:
     """`a, b = x, y` -> `a = x; b = y` (when no right-hand side reads a left-hand name) and `a = b = v` -> `a = v; b = v`
     (v a constant / conditional of constants): the same stores, one target each."""
@@ -1364,6 +1414,7 @@ def normalize(project) -> List[str]:
     renamed = recover_renamed_anchors(project)
     for fi in project.funcs.values():
         desugar(fi.node)
+        inline_callable_aliases(fi.node)
     inl = Inliner(project, base_funcs, base_consts)
     inl.log += renamed
     if not inl.new_funcs and not inl.new_consts:
